@@ -1,10 +1,10 @@
 #!/bin/bash
 # run every registered quick (or thorough) check on /repo as it is; print one line per check
 TIER="${1:-quick}"
-cd /verif
-for id in $(python3 -c "import json;print(' '.join(c['property_id'] for c in json.load(open('/verif/MANIFEST.json'))['checks']))"); do
+cd "$(dirname "${BASH_SOURCE[0]}")/.." && V=$(pwd)
+for id in $(python3 -c "import json;print(' '.join(c['property_id'] for c in json.load(open('MANIFEST.json'))['checks']))"); do
   s=$(date +%s)
-  ./verif check $id --tier $TIER > /verif/.work/run_$id.log 2>&1; rc=$?
+  ./verif check $id --tier $TIER > $V/.work/run_$id.log 2>&1; rc=$?
   e=$(date +%s)
-  echo "$id rc=$rc $((e-s))s $(grep -c '^VIOLATION' /verif/.work/run_$id.log) violations $(grep -c '^KNOWN-FINDING' /verif/.work/run_$id.log) known $(grep -c HARNESS /verif/.work/run_$id.log) harness-errors"
+  echo "$id rc=$rc $((e-s))s $(grep -c '^VIOLATION' $V/.work/run_$id.log) violations $(grep -c '^KNOWN-FINDING' $V/.work/run_$id.log) known $(grep -c HARNESS $V/.work/run_$id.log) harness-errors"
 done
